@@ -3,6 +3,7 @@ C06 along every history: the context snapshots a task is rendered from are the i
 snapshots that reached the task along satisfied transitions.
 -/
 import OrqModel.Proofs.Ancestry
+import OrqModel.Proofs.Inherit
 import OrqModel.Properties.Truth
 import OrqModel.Properties.History
 
@@ -109,6 +110,74 @@ theorem C06_offer_snapshots_from_ancestors (spec : WfSpec) (parentCtx inputs : V
 theorem C06_publications_append_only (ops : List Op) (c : Cond) :
     ∃ l, (runOps E ops c).st.pubLog = c.st.pubLog ++ l :=
   (C18_history_extends E ops c).2.2.2
+
+/-! ### inheritance -/
+
+theorem init_in (spec : WfSpec) (parentCtx inputs : Val.Dict) : IN (init E spec parentCtx inputs) := by
+  unfold init
+  dsimp only
+  have h0 : IN ({ spec := spec, graph := compose spec, inputs := inputs, parentCtx := parentCtx } : Cond) :=
+    ⟨fun x hx => (by cases hx), fun r hr => (by cases hr)⟩
+  have h1 := (JN.of_rel (m := (do logError "ExpressionEvaluationException"; failOnError : M Unit))
+    (by ext_walk [failOnError_ext]) (by prev_walk [failOnError_prev, logError_prev _ _ _ _])).run _ h0
+  have hroots : ∀ (c : Cond) (ctx : Val.Dict) (roots : List String), IN c →
+      IN { c with st := { c.st with
+        contexts := c.st.contexts ++ [ctx],
+        routes := c.st.routes ++ [[]],
+        staged := c.st.staged ++ roots.map fun n =>
+          ({ id := n, route := 0, ctxsIn := [0], ready := true } : Staged) } } := by
+    intro c ctx roots hj
+    refine ⟨?_, ?_⟩
+    · intro x hx
+      rcases List.mem_append.mp hx with h | h
+      · exact Inh.same (c := c) rfl (hj.staged x h)
+      · obtain ⟨n, _, e⟩ := List.mem_map.mp h
+        rw [← e]
+        exact ⟨List.mem_singleton.mpr rfl, fun p hp => by cases hp⟩
+    · intro r hr
+      exact Inh.same (c := c) rfl (hj.recs r hr)
+  repeat' split
+  all_goals first
+    | exact h1 | exact h0 | exact hroots _ _ _ h1 | exact hroots _ _ _ h0
+
+theorem runOp_in (op : Op) (c : Cond) (hj : IN c) : IN (runOp E op c) := by
+  cases op with
+  | req s => exact (JN.of_rel (requestStatus_ext s) (requestStatus_prev s)).run c hj
+  | next => exact (JN.of_rel (getNextTasks_ext E) (getNextTasks_prev E)).run c hj
+  | render => exact (JN.of_rel (renderOutput_ext E) (renderOutput_prev E)).run c hj
+  | rerun reqs => exact (requestRerun_jn E reqs).run c hj
+  | report k ev => exact (updateTaskStateAux_jn E 3 k ev).run c hj
+
+theorem runOps_in (ops : List Op) (c : Cond) (hj : IN c) : IN (runOps E ops c) := by
+  induction ops generalizing c with
+  | nil => exact hj
+  | cons op ops ih =>
+    rw [runOps_cons]
+    exact ih (runOp E op c) (runOp_in E op c hj)
+
+/-- **C06**, inheritance: along every history (no restriction on the operations), every staged
+    entry and every task record is rendered from the initial context (index 0 is listed) and from
+    every snapshot each predecessor it lists was rendered from: what a task saw, its successors
+    see. -/
+theorem C06_predecessor_snapshots_inherited (spec : WfSpec) (parentCtx inputs : Val.Dict) (ops : List Op) :
+    IN (runOps E ops (init E spec parentCtx inputs)) :=
+  runOps_in E ops _ (init_in E spec parentCtx inputs)
+
+/-- … for what is offered -/
+theorem C06_offer_inherits_predecessor_snapshots (spec : WfSpec) (parentCtx inputs : Val.Dict) (ops : List Op)
+    (offers : List Offer) (c' : Cond)
+    (h : getNextTasks E (runOps E ops (init E spec parentCtx inputs)) = (.ok offers, c')) :
+    ∀ o ∈ offers, ∃ sx ∈ (runOps E ops (init E spec parentCtx inputs)).st.staged,
+      sx.id = o.id ∧ sx.route = o.route ∧ 0 ∈ sx.ctxsIn ∧
+      ∀ p ∈ sx.prev, ∃ q, (runOps E ops (init E spec parentCtx inputs)).st.sequence[p.2]? = some q ∧
+        ∀ i ∈ q.ctxsIn, i ∈ sx.ctxsIn := by
+  intro o ho
+  obtain ⟨sx, hsx, h1, h2, _⟩ := C01_offer_from_staged E _ offers c' h o ho
+  have hmem : sx ∈ (runOps E ops (init E spec parentCtx inputs)).st.staged := by
+    unfold WState.readyStaged at hsx
+    exact (List.mem_filter.mp hsx).1
+  have hin := (C06_predecessor_snapshots_inherited E spec parentCtx inputs ops).staged sx hmem
+  exact ⟨sx, hmem, h1, h2, hin.1, hin.2⟩
 
 /-- non-vacuity: a state with a published snapshot reaching a staged task -/
 def exampleStateCA : Cond where
